@@ -207,19 +207,44 @@ fn target_colorbuf_update() {
     assert!(io.o == writes);
 }
 
-// @ob props=C06,C07 tier=quick kind=P cfg=core-std timeout=300
-// @fn Context::depth_test
-// @clause depth predicate for all f32 pairs and all four settings: None passes every fragment; Some(Less) passes iff curr < new (a larger reciprocal depth is nearer); Equal/Greater likewise; NaN never passes a configured test
-#[cfg(not(verif_skip_target_depth_test_spec))]
+// @ob props=C06,C07 tier=quick kind=B cfg=core-std timeout=1800
+// @fn <Framebuf<Col,Dep> as Target>::rasterize
+// @bound one framebuffer row of 3 pixels, spans of at most 2 fragments; all predicates and flags
+// @clause modular: against the CONTRACT of Context::depth_test alone (its body replaced by the contract), the per-pixel update holds: writes only inside the span, colour iff pass & colour returned & color_write, depth iff pass & colour returned & depth_write
+#[cfg(not(verif_skip_target_framebuf_update_modular))]
 #[kani::proof]
-fn target_depth_test_spec() {
+#[kani::stub_verified(Context::depth_test)]
+#[kani::unwind(6)]
+fn target_framebuf_update_modular() {
+    let mut fb = Framebuf { color_buf: Buf2::<u32>::new((W as u32, 1)), depth_buf: Buf2::<F>::new((W as u32, 1)) };
+    let z_old: [F; W] = kani::any();
+    let mut i = 0;
+    while i < W {
+        kani::assume(z_old[i].is_finite());
+        fb.depth_buf[[i as u32, 0]] = z_old[i];
+        i += 1;
+    }
+    let s = any_setup(1);
+    kani::assume(s.x1 <= s.x0 + 2);
     let ctx = any_ctx();
-    let (new, curr): (F, F) = (kani::any(), kani::any());
-    let r = ctx.depth_test(new, curr);
-    kani::cover!(ctx.depth_test == Some(Ordering::Less) && r);
-    assert!(r == spec_pass(ctx.depth_test, new, curr));
-    if ctx.depth_test.is_some() && (new.is_nan() || curr.is_nan()) {
-        assert!(!r);
+    let discard = s.discard;
+    let fs = |_f: Frag<()>| -> Option<Color4> { if discard { None } else { Some(rgba(1, 2, 3, 4)) } };
+    let _ = fb.rasterize(scanline(&s), &fs, &ctx);
+    kani::cover!(s.x1 == s.x0 + 2);
+    let mut zf = s.z;
+    let mut i = 0;
+    while i < W {
+        let (zi, ci) = (fb.depth_buf[[i as u32, 0]], fb.color_buf[[i as u32, 0]]);
+        let inside = i >= s.x0 && i < s.x1;
+        if !inside {
+            assert!(zi.to_bits() == z_old[i].to_bits() && ci == 0);
+        } else {
+            let pass = spec_pass(ctx.depth_test, zf, z_old[i]) && !discard;
+            assert!((ci == NEW_COL) == (pass && ctx.color_write));
+            assert!(zi.to_bits() == if pass && ctx.depth_write { zf.to_bits() } else { z_old[i].to_bits() });
+            zf += s.dz;
+        }
+        i += 1;
     }
 }
 
